@@ -27,11 +27,11 @@ type Scenario struct {
 	PutErrAt      int   `json:"puterrat"`
 	PutPanicAt    int   `json:"putpanicat"`
 	ReplayPanicAt int   `json:"replaypanicat"`
-	Prefill       int   `json:"prefill,omitempty"` // publishes made sequentially before anything else starts
+	Prefill       int   `json:"prefill,omitempty"`   // publishes made sequentially before anything else starts
 	TTLms         int   `json:"ttlms,omitempty"`     // valid replayer: time-to-live in (virtual) ms; 0 = practically infinite
 	Sleeps        []int `json:"sleeps,omitempty"`    // sleep actions (virtual ms) the scheduler may take, so that buffered events expire
 	EmptyIDAt     int   `json:"emptyidat,omitempty"` // manual IDs: the message with this creation index carries the (valid) empty ID; 0 = none, else index+1
-	WarmSubs      int   `json:"warmsubs,omitempty"` // the first WarmSubs subscribers are started and run to quiescence (registered) before the schedule begins
+	WarmSubs      int   `json:"warmsubs,omitempty"`  // the first WarmSubs subscribers are started and run to quiescence (registered) before the schedule begins
 	Picks         []int `json:"picks"`
 }
 
@@ -46,7 +46,7 @@ type SubSpec struct {
 }
 
 type PubSpec struct {
-	Msgs [][]string `json:"msgs"` // topics of each message, published in order by one goroutine
+	Msgs [][]string `json:"msgs"`          // topics of each message, published in order by one goroutine
 	Bad  []int      `json:"bad,omitempty"` // indexes of messages that violate the replayer's ID mode (Put must reject them)
 }
 
